@@ -26,9 +26,10 @@ TRUSTED = ["harness/h_C18.cpp builds rtosc::Ports tables at run time (names, met
            "calls Ports::collapsePath, Ports::apropos, Ports::operator[], both rtosc::path_search overloads",
            "tools/props/ports_common.py: tree generator and the Spec-side reading of names (expansion of '#N')"]
 ASSUMPTIONS = ["collapse: the path is absolute (starts with '/'); components may be empty",
-               "lookup: names follow the grammar literal / '#N' (1 <= N), literal characters are not digits or pattern "
-               "characters, sub-tree names end in '/', leaf names carry at most one '#'; no concrete sibling name is a "
-               "prefix of another (the property's own condition, read over the expansions of '#N')",
+               "lookup: demanded when names_ok holds (the hypothesis of C18_lookup: names of the documented shape - literal "
+               "text may hold digits, sub-tree names of one or more components 'text/' / 'text#N/' - and no two sibling "
+               "names clash), or when names follow the grammar literal / '#N' (1 <= N) without literal digits, leaf names "
+               "carry at most one '#' and no concrete sibling name is a prefix of another",
                "search: types/args buffers large enough for the addressed table (documented precondition of path_search); "
                "metadata blocks in the rMap/rProp/rDoc layout, NULL or \"\"; port names non-empty"]
 
@@ -147,11 +148,14 @@ def gen(rng, tier, dist):
     # ---- trees
     ntree = 700 if tier == "quick" else 25000
     for k in range(ntree):
-        dirty = rng.random() < 0.35
+        r = rng.random()
+        dirty = True if r < 0.3 else ('digits' if r < 0.5 else False)
         depth = rng.choice([1, 2, 2, 3, 3, 4])
         t = pc.gen_tree(rng, depth, dirty, maxports=rng.choice([2, 3, 4, 5, 6]))
         et = pc.enc_tree(t)
-        bump(dist, "tree-depth-%d-%s" % (depth, "dirty" if dirty else "clean"))
+        bump(dist, "tree-depth-%d-%s" % (depth, "dirty" if dirty is True else "digits" if dirty else "clean"))
+        if dirty == 'digits':
+            bump(dist, "names_ok-trees-with-literal-digits", 1 if pc.names_ok(t) else 0)
         bump(dist, "names_ok-trees", 1 if pc.names_ok(t) else 0)
         walked = pc.spec_walk(t)
         subs = pc.subtrees(t)
@@ -338,6 +342,7 @@ LEVEL_TEXT = ("collapsePath: for every absolute path (any number and length of c
               "start with the needle, paired with their metadata bytes - in table order / as a sorted permutation / as the sorted "
               "permutation of the names not below a 'name/' entry, duplicates kept (C18_search_*), and the reply is the C01 "
               "encoding of those pairs (C18_reply_wellformed). Lookup: every address the walk reports is found by apropos, for names "
-              "of the documented shape whose siblings answer disjoint sets of paths (C18_lookup_partial).")
+              "of the documented shape whose siblings do not clash - a decidable condition evaluated on every generated tree "
+              "(C18_lookup; C18_lookup_partial with the semantic condition).")
 LEVEL_NOTE = ("Trusted: Coq kernel, extraction, OCaml driver, harness, generator. The C++ code is modelled by hand "
               "(coq/Ports/PathModel.v, NameModel.v) and related to the model only by the correspondence run.")
